@@ -288,3 +288,93 @@ FIXED_MARKERS = [
     (_atom("platform_machine", "in", b"x86_64 arm64"), []),
     (_atom("platform_version", "not in", b"Ubuntu", lit_right=False), []),
 ]
+
+
+# ---------------------------------------------------------------- literals taken from the target environment, near-duplicates
+
+def _mk_lit(rng, text):
+    if 34 in text and 39 in text:
+        return None
+    dq = 1 if rng.random() < 0.6 else 0
+    if (34 if dq else 39) in text:
+        dq = 1 - dq
+    return [dq, text]
+
+
+def env_atom(rng, env):
+    """a comparison whose literal comes from the target environment: the value, a piece of it, or nearly so"""
+    for _ in range(20):
+        var = rng.randrange(len(VARS) - 1)          # not extra
+        val = env[VARS[var]]
+        r = rng.random()
+        if r < 0.3 or len(val) < 2:
+            text = val
+        else:
+            words = val.split(b" ")
+            if len(words) > 1 and rng.random() < 0.6:
+                i = rng.randrange(len(words) - 1)
+                text = b" ".join(words[i:i + rng.choice([2, 2, 3])])
+            else:
+                i = rng.randrange(len(val))
+                text = val[i:rng.randrange(i + 1, len(val) + 1)]
+        if 92 in text or any(c < 32 or c > 126 for c in text):
+            continue
+        lit = _mk_lit(rng, text)
+        if lit is None:
+            continue
+        op = rng.choice([8, 9, 8, 3, 2])            # in, not in, ==, !=
+        if op in (8, 9):
+            return [1, lit, op, var]                # 'piece' in variable
+        return [0, var, op, lit] if rng.random() < 0.7 else [1, lit, op, var]
+    return gen_atom(rng, True)
+
+
+def map_lits(tree, f):
+    if tree[0] == 0:
+        a = tree[5]
+        a2 = [0, a[1], a[2], f(a[3])] if a[0] == 0 else [1, f(a[1]), a[2], a[3]]
+        return [0, tree[1], tree[2], tree[3], tree[4], a2]
+    if tree[0] in (1, 2):
+        return [tree[0], map_lits(tree[1], f), tree[2], map_lits(tree[3], f)]
+    return [3, tree[1], map_lits(tree[2], f), tree[3]]
+
+
+def rewhite(rng, tree):
+    if tree[0] == 0:
+        return [0, wsp(rng, 0.6), wsp(rng, 0.6), wsp(rng, 0.6), wsp(rng, 0.6), tree[5]]
+    if tree[0] in (1, 2):
+        return [tree[0], rewhite(rng, tree[1]), wsp(rng, 0.6), rewhite(rng, tree[3])]
+    return [3, wsp(rng, 0.6), rewhite(rng, tree[2]), wsp(rng, 0.6)]
+
+
+def near_duplicates(rng, tree):
+    """markers that a careless normalisation would identify with `tree`: white space outside the literals,
+    white space inside them, the other quote style, another letter case"""
+    def inner_ws(lit):
+        t = lit[1]
+        sp = [i for i, c in enumerate(t) if c in b" \t"]
+        r = rng.random()
+        if sp and r < 0.5:
+            i = rng.choice(sp)
+            t2 = t[:i] + rng.choice([b"  ", b"\t", b" \t"]) + t[i + 1:]
+        elif sp and r < 0.7:
+            i = rng.choice(sp)
+            t2 = t[:i] + t[i + 1:]
+        else:
+            i = rng.randrange(len(t) + 1)
+            t2 = t[:i] + b" " + t[i:]
+        return [lit[0], t2]
+
+    def flip(lit):
+        q = 39 if lit[0] else 34        # the quote it would get
+        return [1 - lit[0], lit[1]] if q not in lit[1] else lit
+
+    def recase(lit):
+        t = lit[1]
+        t2 = rng.choice([t.upper(), t.lower(), t.swapcase()])
+        return [lit[0], t2]
+
+    out = [rewhite(rng, tree), map_lits(tree, inner_ws), map_lits(tree, flip), map_lits(tree, recase)]
+    if rng.random() < 0.5:
+        out.append(rewhite(rng, map_lits(tree, inner_ws)))
+    return [t for t in out if t != tree]
